@@ -113,6 +113,23 @@ Theorem C02_step_rename_dir_in : forall C, c_faults C = [] -> forall w k r p q w
 Proof. exact step_rename_dir_in. Qed.
 Print Assumptions C02_step_rename_dir_in.
 
+(* ... and OVER an empty directory v of the tree: while the reader installs the watches of the arrived tree it still records
+   v under q (the kernel has already dropped v's watch); the first add_watch overwrites _wd_for_path[q], the IN_ATTRIB /
+   IN_DELETE_SELF of v are reported under q, its IN_IGNORED removes the stale key of _path_for_wd and leaves the new
+   _wd_for_path[q] alone.  This is a constructor of covered_op (co_rename_dir_in_over), hence an operation of every
+   sequential / pipeline / cuts theorem below. *)
+Theorem C02_step_rename_dir_in_over : forall C, c_faults C = [] -> forall w k r p q w' ep v, RSync C w k r -> npath p -> npath q ->
+  c_recursive C = true -> c_fix_movein C = true ->
+  N.land IN_MOVED_FROM (c_mask C) <> 0%N -> N.land IN_MOVED_TO (c_mask C) <> 0%N ->
+  apply_op w (Rename p q) = Some w' ->
+  flookup p (w_fs w) = Some ep -> f_dir ep = true -> ~ scope C p -> under p (c_root C) = false -> scope C q -> q <> c_root C ->
+  flookup q (w_fs w) = Some v -> f_dir v = true ->
+  let k1 := kernel_op k (w_fs w) (Rename p q) in
+  exists r' k' evs, read_batch C (w_fs w') (r, drainq k1, []) (k_queue k1) = Done (r', k', evs) /\ RSync C w' k' r' /\
+    Forall (rsafe C) evs.
+Proof. exact step_rename_dir_in_over. Qed.
+Print Assumptions C02_step_rename_dir_in_over.
+
 (* Rename of a directory out of the tree: everything under the root is still covered; the departed sub-tree's watches
    and map entries are still there and the move-out candidate is set (pend = Some (cookie, old path)): the next record
    the reader processes forgets them (repair of F10; C02_out_pending / C02_pending_step below).  Pinned code
@@ -186,10 +203,10 @@ Definition C02_cover_sequential_full : Prop :=
    Touch / Write / Chmod / Unlink / Mkdir / Rmdir (not the root) / Rename of a file (any direction, replacing or not) /
    Rename of a directory inside the tree to a fresh name (recursive watch) / into the tree from outside to a fresh name
    (recursive watch, repaired code) / under a non-recursive watch / entirely outside the tree.
-   / over an empty directory of the tree.
+   / over an empty directory of the tree (from inside the tree, or from outside: C02_step_rename_dir_in_over).
    This is the version from a synchronised state without directory move-outs (weaker mask hypothesis); histories with
    move-outs: C02_cover_sequential_partial below.
-   NOT covered: a directory moved in from outside over an empty directory of the tree, operations on the root itself. *)
+   NOT covered: operations on the root itself. *)
 Theorem C02_cover_sequential_synced_partial : forall C, c_faults C = [] -> forall ops, mask_ok C -> forall w k r,
   RSync C w k r -> ops_covered C w ops ->
   exists w' k' r', rrun C w k r ops = Some (w', k', r') /\ RSync C w' k' r'.
@@ -731,6 +748,33 @@ Proof. exact (C02_cover_from_start_x2_partial (cfgo true) eq_refl eq_refl two_ou
 Example C02_two_out_computed :
   exists w' k' r', run_ops (cfgo true) two_out_ops = Some (w', k', r') /\ length (k_watches k') = 2%nat /\ pend r' = None.
 Proof. eexists _, _, _. split; [vm_compute; reflexivity|]. split; reflexivity. Qed.
+
+(* ---- a directory with content moved in over an empty directory: mkdir R/t; mv O/d R/t (O/d contains the directory e) *)
+Definition in_over_ops : list op := [Mkdir (sub pR 116); Rename (sub pO 100) (sub pR 116); Touch (sub (sub (sub pR 116) 101) 102)].
+
+Example C02_in_over_ops_x : ops_x (cfgo true) w0 None in_over_ops.
+Proof.
+  assert (GR : gpath pR) by (split; [discriminate | reflexivity]).
+  assert (GO : gpath pO) by (split; [discriminate | reflexivity]).
+  assert (Na : forall n, valid_name [n] = true -> npath (sub pR n)) by (intros; now apply npath_sub).
+  assert (No : forall n, valid_name [n] = true -> npath (sub pO n)) by (intros; now apply npath_sub).
+  assert (NS : forall p, ~ scope (cfgo true) (sub pO p)) by (intros p [H|H]; vm_compute in H; discriminate).
+  unfold in_over_ops.
+  eapply ops_x_cons; [vm_compute; reflexivity | apply cx_op, co_mkdir; now apply Na |]. vm_compute hot_next.
+  eapply ops_x_cons; [vm_compute; reflexivity | |].
+  { apply cx_op. eapply co_rename_dir_in_over; try (now apply Na); try (now apply No); try reflexivity; try (vm_compute; reflexivity);
+      try (right; vm_compute; reflexivity); try (vm_compute; discriminate). apply NS. }
+  vm_compute hot_next.
+  eapply ops_x_cons; [vm_compute; reflexivity | |].
+  { apply cx_op, co_quiet; [exact I|]. apply npath_sub; [|reflexivity]. apply npath_gpath. apply npath_sub; [|reflexivity].
+    apply npath_gpath. now apply Na. }
+  exact I.
+Qed.
+
+Example C02_in_over_instance :
+  exists r0 k0 w' k' r', construct (cfgo true) kinit (w_fs w0) = Some (r0, k0) /\ rrun (cfgo true) w0 k0 r0 in_over_ops = Some (w', k', r') /\
+                         wf_fs w' /\ Cover (cfgo true) (w_fs w') k' r'.
+Proof. exact (C02_cover_from_start_partial (cfgo true) eq_refl eq_refl in_over_ops w0 eq_refl w0_wf eq_refl C02_in_over_ops_x). Qed.
 
 (* ================================================================== bursts of file-level operations *)
 (* Several FILE-LEVEL operations (the class [burst_ok] of C03_burst_files_contract: touch, write, chmod of a file, unlink, file
